@@ -7,6 +7,7 @@ import (
 	opautil "github.com/open-policy-agent/opa/util"
 	"go/token"
 	"go/types"
+	"hash/crc32"
 	"hash/fnv"
 	"io"
 	"reflect"
@@ -611,6 +612,40 @@ func registerEnvStubs(e *Engine) {
 			return tuple{iface{}, errIface(fr.i, "stub: invalid character after top-level value")}
 		}
 		return tuple{iface{}, fr.i.ioSentinel("EOF")}
+	}
+	// Buffered: what the decoder has read from its source and not yet consumed - the real decoder's
+	// answer for concrete text (it reads in growing chunks, so text far behind the document may not be
+	// in it), the rest of the text for the abstract one
+	in["(*encoding/json.Decoder).Buffered"] = func(fr *frame, a []value) value {
+		dec := (*a[0].(*value)).(nativeObj).v.(*jsonDecoder)
+		rest := ""
+		if dec.native != nil {
+			b, _ := io.ReadAll(dec.native.Buffered())
+			rest = string(b)
+		} else if dec.docs > 0 && fr.i.ps.flagDecide("decode.trailing") {
+			rest = " <<trailing text>>"
+		}
+		bt := fr.i.eng.namedType("bytes", "Buffer")
+		buf := zero(bt).(structure)
+		bs := make([]value, len(rest))
+		for k := 0; k < len(rest); k++ {
+			bs[k] = rest[k]
+		}
+		setField(bt, buf, "buf", bs)
+		var cell value = buf
+		return iface{t: types.NewPointer(bt), v: &cell}
+	}
+	in["hash/crc32.ChecksumIEEE"] = func(fr *frame, a []value) value {
+		bs, _ := a[0].([]value)
+		raw := make([]byte, len(bs))
+		for k, b := range bs {
+			c, ok := b.(uint8)
+			if !ok {
+				panic(unsupported{"crc32 of symbolic bytes"})
+			}
+			raw[k] = c
+		}
+		return crc32.ChecksumIEEE(raw)
 	}
 	in["(*encoding/json.Decoder).UseNumber"] = func(fr *frame, a []value) value {
 		(*a[0].(*value)).(nativeObj).v.(*jsonDecoder).useNumber = true
@@ -1502,7 +1537,6 @@ func normaliseDecoded(n any) any {
 	}
 	return n
 }
-
 
 // setField stores v into the named field of a structure of the given named struct type.
 func setField(t types.Type, st structure, name string, v value) {
